@@ -395,6 +395,7 @@ pub fn run(ctx: &Ctx, p: Prop) {
         _ => (ctx.tier.pick(5_000u64, 150_000u64), 40),
     };
     let known_open = |sig: &str| ctx.is_known_open(sig);
+    demonstrations(ctx, p);
     run_prop(ctx, "histories", cases, strategy(p, maxlen), |(fixture, ops), st| {
         let case = HistCase { fixture: *fixture, ops: ops.clone() };
         match run_history(p, &case, st, &known_open) {
@@ -402,6 +403,44 @@ pub fn run(ctx: &Ctx, p: Prop) {
             Err(f) => Outcome::Fail(f),
         }
     });
+}
+
+/// demonstrations of the open findings that are excluded from the generators by construction
+fn demonstrations(ctx: &Ctx, p: Prop) {
+    use autosar_data::*;
+    let mut st = Stats::new();
+    if p == Prop::C04 {
+        // KF-C04-1: copy a non-identifiable container whose child collides with an existing path
+        st.eval();
+        let mut w = World::fixture(0);
+        let m = w.models[0].clone();
+        let r = (|| -> Result<bool, AutosarDataError> {
+            let inner = m.get_element_by_path("/pkg1/a").ok_or(AutosarDataError::ItemDeleted)?;
+            inner.set_item_name("b")?;
+            let container = inner.parent()?.ok_or(AutosarDataError::ItemDeleted)?; // <AR-PACKAGES> inside /pkg1
+            let dest = m.get_element_by_path("/a").ok_or(AutosarDataError::ItemDeleted)?;
+            dest.create_copied_sub_element(&container)?;
+            w.rescan();
+            let s = scan(&mut w, 0);
+            Ok(s.paths.get("/a/b").is_some_and(|v| v.len() > 1))
+        })();
+        if let Ok(true) = r {
+            ctx.report(Failure::new("container-copy-or-move:child-path-collides-in-destination", "after copying the <AR-PACKAGES> of /pkg1 (holding package b) into /a, which already has the COMPU-METHOD /a/b, two elements have the path /a/b", json!({"kind": "demonstration", "finding": "KF-C04-1"})));
+        }
+    }
+    if p == Prop::C10 {
+        // KF-C10-1: the root element removed from its only file
+        st.eval();
+        let w = World::fixture(2);
+        let m = w.models[0].clone();
+        let f = w.files[0].file.clone();
+        let root = m.root_element();
+        let _ = root.create_sub_element(ElementName::ArPackages);
+        if root.remove_from_file(&f).is_ok() && m.files().count() == 1 && root.file_membership().is_err() {
+            ctx.report(Failure::new("root-element-removed-from-a-file", "root_element().remove_from_file(only file) succeeds; afterwards the model still lists the file but file_membership() of the root fails with NoFilesInModel", json!({"kind": "demonstration", "finding": "KF-C10-1"})));
+        }
+    }
+    ctx.merge(st);
 }
 
 pub fn replay(ctx: &Ctx, p: Prop, case: &Value) {
